@@ -246,13 +246,20 @@ namespace
             HV::RunCost<D> rc{&cs, nullptr};
             WS *ws = wsOf(wsk);
             typename Opt::GradientCheckResult res;
+            // eps < 0: the defaulted eps/tol arguments are used; tol < 0: only tol is defaulted
             if (cs.useWp)
             {
                 HV::WpCost wc{&cs};
-                res = opt->checkGradients(x, tc, wc, rc, ws, eps, tol);
+                if (eps < 0) res = opt->checkGradients(x, tc, wc, rc, ws);
+                else if (tol < 0) res = opt->checkGradients(x, tc, wc, rc, ws, eps);
+                else res = opt->checkGradients(x, tc, wc, rc, ws, eps, tol);
             }
             else
-                res = opt->checkGradients(x, tc, rc, ws, eps, tol);
+            {
+                if (eps < 0) res = opt->checkGradients(x, tc, rc, ws);
+                else if (tol < 0) res = opt->checkGradients(x, tc, rc, ws, eps);
+                else res = opt->checkGradients(x, tc, rc, ws, eps, tol);
+            }
             o.key("valid"); o.integer(res.valid ? 1 : 0); o.nl();
             o.key("errsq"); o.num(res.error_norm * res.error_norm); o.nl();
             o.key("errnorm"); o.num(res.error_norm); o.num(res.rel_error); o.nl();
